@@ -232,6 +232,10 @@ func (e *mvccEngine) backupOp(toks []string) string {
 			os.RemoveAll(e.bkdir)
 		}
 		e.bkdir = freshDir()
+		if f, _ := argOf(toks, "failopen"); f == "1" {
+			// the shard files cannot be created: <dir>/data exists as a regular file
+			ioutil.WriteFile(filepath.Join(e.bkdir, "data"), []byte("x"), 0644)
+		}
 		e.refs[i]--
 		cb, finish := e.churnCallback(churn, hasChurn, churnAt == "gc", churnEach)
 		cb, finish2 := e.releaseDuringBackup(releaseSnap, cb)
@@ -330,7 +334,11 @@ func (e *mvccEngine) backupOp(toks []string) string {
 		if err != nil {
 			return "err"
 		}
-		return e.loadScratch(dir, conc, false)
+		// the backup reported success: it must restore (an unrestorable "successful" backup is the violation)
+		if r := e.loadScratch(dir, conc, false); r != "err" {
+			return r
+		}
+		return "ok-but-unrestorable"
 	case "crashload":
 		i, s := snapOf()
 		at, oka := natArg(toks, "at")
@@ -345,11 +353,17 @@ func (e *mvccEngine) backupOp(toks []string) string {
 		var mu sync.Mutex
 		n := 0
 		taken := false
+		of, _ := argOf(toks, "only")
+		onlyFs := of == "fs" // count only the steps of StoreToDisk itself, not every item write (large snapshots)
 		prev := nitro.VerifHook
 		oldBlock := nitro.DiskBlockSize
 		nitro.DiskBlockSize = 64 // flush often, so that crash images contain partial shard files
 		nitro.VerifHook = func(point int, obj unsafe.Pointer) {
-			switch nitroPoint[point] {
+			name := nitroPoint[point]
+			if onlyFs && name != "STORE_FS" {
+				name = ""
+			}
+			switch name {
 			case "STORE_FS", "FILE_WRITE", "FILE_FLUSH", "FILE_CLOSE":
 				mu.Lock()
 				if n == at && !taken {
